@@ -6,7 +6,6 @@ import (
 	"runtime/pprof"
 	"unsafe"
 	"fmt"
-	"hash/fnv"
 	"sort"
 	"strconv"
 	"strings"
@@ -80,6 +79,9 @@ type Sim struct {
 	anon     int
 
 	hash    uint64
+	final   uint64
+	frozen  bool
+	pend    uint64 // order-independent sum of the trace lines emitted by goroutines since the last scheduler step
 	Verbose bool
 	Log     []string
 
@@ -110,7 +112,7 @@ func New(seed uint64, tape *Tape) *Sim {
 		ExitStep:  map[string]int{},
 		StartStep: map[string]int{},
 		Stats:    map[string]int{},
-		MaxSteps: 20000,
+		MaxSteps: 40000,
 		MaxTime:  10 * time.Minute,
 		hash:     14695981039346656037,
 	}
@@ -138,6 +140,10 @@ func (s *Sim) mix(str string) {
 //
 //go:norace
 func (s *Sim) trace(str string) {
+	if s.pend != 0 {
+		s.mix(strconv.FormatUint(s.pend, 16))
+		s.pend = 0
+	}
 	s.mix(str)
 	if s.Verbose {
 		s.Log = append(s.Log, fmt.Sprintf("%6d t=%-12v %s", s.Steps, time.Since(s.Start), str))
@@ -148,30 +154,43 @@ func (s *Sim) trace(str string) {
 //
 //go:norace
 func (s *Sim) Tracef(format string, a ...any) {
+	// Lines traced by goroutines that run between two scheduler steps may arrive
+	// in any order (a released goroutine can wake others through the code's own
+	// channels): they enter the event-log hash as an order-independent sum, which
+	// the next scheduler step folds in.
+	h := uint64(14695981039346656037)
+	mixs := func(str string) {
+		for i := 0; i < len(str); i++ {
+			h ^= uint64(str[i])
+			h *= 1099511628211
+		}
+		h ^= 0xff
+		h *= 1099511628211
+	}
+	mixs(format)
+	for _, x := range a {
+		switch v := x.(type) {
+		case int:
+			mixs(strconv.Itoa(v))
+		case string:
+			mixs(v)
+		case bool:
+			if v {
+				mixs("T")
+			} else {
+				mixs("F")
+			}
+		case time.Duration:
+			mixs(strconv.FormatInt(int64(v), 10))
+		default:
+			mixs(fmt.Sprint(v))
+		}
+	}
 	raceOff()
 	s.mu.Lock()
+	s.pend += h
 	if s.Verbose {
-		s.trace(format + " " + fmt.Sprint(a...))
-	} else {
-		s.mix(format)
-		for _, x := range a {
-			switch v := x.(type) {
-			case int:
-				s.mix(strconv.Itoa(v))
-			case string:
-				s.mix(v)
-			case bool:
-				if v {
-					s.mix("T")
-				} else {
-					s.mix("F")
-				}
-			case time.Duration:
-				s.mix(strconv.FormatInt(int64(v), 10))
-			default:
-				s.mix(fmt.Sprint(v))
-			}
-		}
+		s.Log = append(s.Log, fmt.Sprintf("%6d t=%-12v %s", s.Steps, time.Since(s.Start), format+" "+fmt.Sprint(a...)))
 	}
 	s.mu.Unlock()
 	raceOn()
@@ -190,9 +209,10 @@ func (s *Sim) StepNow() int {
 }
 
 func (s *Sim) Hash() string {
-	h := fnv.New64a()
-	fmt.Fprintf(h, "%d", s.hash)
-	return fmt.Sprintf("%016x", s.hash)
+	if s.frozen {
+		return fmt.Sprintf("%016x", s.final)
+	}
+	return fmt.Sprintf("%016x", s.hash+s.pend*0x9e3779b97f4a7c15)
 }
 
 //go:norace
@@ -480,6 +500,10 @@ func Run(t *testing.T, s *Sim, setup func() (done func() bool), finish func()) (
 		done := setup()
 		s.loop(done)
 		s.SimElapsed = time.Since(s.Start)
+		// the event log ends here: teardown below runs the leftovers freely
+		s.mu.Lock()
+		s.final, s.frozen = s.hash+s.pend*0x9e3779b97f4a7c15, true
+		s.mu.Unlock()
 		// teardown
 		for i := len(s.cleanup) - 1; i >= 0; i-- {
 			s.cleanup[i]()
